@@ -57,6 +57,28 @@ CLAIMED.update({
             "The reference interpreter covers char.def files inside a strict grammar (others are counted as unchecked); matrix headers implying > 2^22 cells are not generated; allocation failure is not injected.",
             "DESIGN.md section 6 (C10)"),
 })
+CLAIMED.update({
+    "C07": ("exploration",
+            "hidden-choice exploration: seeded template-split orders of the dual connector (hook H5) against the raw connector and a harness-side defining sum; thorough adds the portable<->AVX2 exchange",
+            "For seeded bigram models (K = 1..20 templates, ragged rows, shared/quoted strings, BOS/EOS lines) the raw connector must equal the harness-side defining feature-pair sum for every id pair incl. id 0, the dual connector must equal the raw one under the ascending and 2-8 seeded trial orders of its greedy template split (in production that order is randomly keyed hash order and differs from run to run), and raw, dual and a matrix.def materialised from the sums must tokenize alike. Sampled over models and split orders, not exhaustive.",
+            "The for-all-models content of the statement is sampled as workload; bigram.cost contains no literal '*' feature and no '/'-only line; costs bounded so the pre-summed part fits 16 bits.",
+            "DESIGN.md section 6 (C07)"),
+    "C14": ("exploration",
+            "model-export simulation: real training, reference image recomputed from RawModel::merge(), four fault-injecting sinks (seeded + enumerated fault offsets), read-back and compile from the simulated disk",
+            "Seeded trainer worlds are trained with the real trainer; write_dictionary's four outputs are compared field by field with a reference image recomputed from the raw model (row order, surfaces, verbatim features, merged class ids, matrix dimensions and entry set, every cost == trunc(-w*32767/max|w|), user rows trained iff given as 0,0,0); short-write/EINTR sinks must not change a byte; a hard fault at any offset of any sink (seeded per run, every offset for a few models) must give Err - never Ok with a short file; the emitted files are read back through faulty readers and must compile, the user file must load. Sampled over worlds; sink offsets exhaustive per enumerated model.",
+            "rucrf's merge() is the trusted definition of classes and weights; either floating evaluation order of the cost formula is accepted; worlds whose training fails are skipped.",
+            "DESIGN.md section 6 (C14)"),
+    "C15": ("exploration",
+            "replica-divergence simulation of trained models: write_model->faulty streams->read_model replicas with warm/cold caches under seeded histories; hard-fault injection",
+            "Seeded histories of {generate, write_model/read_model round trip through faulty streams (also of a round trip), add user lexicon, generate again}: every replica must emit identical lex/matrix/unk/user/bigram.left/bigram.right bytes and identical bigram.cost line multisets, generating twice must be stable, write_model must report the bytes accepted, hard faults must give Err. Sampled, not exhaustive.",
+            "Model-file bytes are not compared (hash-order dependent, not claimed); round trips after a user lexicon are outside the statement.",
+            "DESIGN.md section 6 (C15)"),
+    "C16": ("exploration",
+            "dictgen->simulated disk->compile pipeline simulation: three fault-injecting bigram sinks, read-back through faulty readers, three consumers (matrix, raw, dual under seeded splits) compared on every id pair",
+            "Seeded trainer worlds: the emitted lex/matrix/unk and bigram.left/right/cost files are read back from the simulated disk and compiled with the matrix, raw and dual connectors (two seeded template splits); for every id pair incl. id 0 dual == raw and |raw - matrix| <= K+1, with equal id counts; benign sink faults change nothing, hard sink faults give Err. One recorded known finding (KF-C16-1, literal '*' features) is matched by its precise predicate only. Sampled, not exhaustive.",
+            "Feature values contain no '/' or tab; worlds whose training fails are skipped.",
+            "DESIGN.md section 6 (C16)"),
+})
 PENDING = {
 }
 
